@@ -86,6 +86,7 @@ pub fn golden(a: &Args) -> i32 {
             max_readers: 1,
             reader_churn: 0,
             ladder_n: 0,
+            ro_mut_pct: 30,
             hashes: false,
             p_rollback: 6,
         };
